@@ -233,6 +233,13 @@ def run(spec):
         A.cfg_mode = cfg["jac"]
         B = probes.run_min(RB, dict(cfg, explicit_scale=s), hooks={"ufd": ridge_update(RB, s)})
     else:
+        if cfg.get("jac") == "callable" and int(P.spec["seed"]) % 6 == 2:
+            # the user's gradient code fills one preallocated array, and the scaler runs it once more (a curvature probe) before answering
+            cfg = dict(cfg, reuse_grad_buffer=True, scaler_probe=True)
+            out.count("pairs_whose_scaler_overwrites_the_users_gradient_buffer")
+        if int(P.spec["seed"]) % 6 == 4:
+            cfg = dict(cfg, fp_sensitive=True)  # an objective that sets and relies on NumPy's floating-point error state
+            out.count("pairs_with_an_objective_relying_on_the_floating_point_error_state")
         A = probes.run_min(P, dict(cfg, scaler=scaler_cfg))
         A.cfg_mode = cfg["jac"]
         B = probes.run_min(P, dict(cfg, explicit_scale=s))
